@@ -30,7 +30,9 @@ Step ==
     [] E[1] = "ret" /\ E[2] = "tpost" ->
          LET i == E[4]
              full == Tracked(src[i].ao) >= T.tcap
-         IN /\ src' = [src EXCEPT ![i].state = IF E[5] = "ok" THEN "accepted" ELSE "rejected"]
+         (* `early`: the post had RETURNED before stop() was called (a post that overlaps stop() may be ordered after it) *)
+         IN /\ src' = [src EXCEPT ![i].state = IF E[5] = "ok" THEN "accepted" ELSE "rejected",
+                                  ![i].early = src[i].ao \notin stopcalled]
             /\ bad' = Chk(full => E[5] = "raised:ActiveObjectOutOfPostedEventResources", "ShouldReject")           \* C31
                    \cup Chk(~full => E[5] = "ok", "ShouldAccept")
             /\ UNCHANGED <<stopped, stopcalled>>
